@@ -205,7 +205,11 @@ StringSpellings(s) ==
       \* quotes written raw inside a multi-line basic string where the grammar allows (runs of at most two)
       rawq == IF (\A i \in 1..Len(s) : BasicUnescaped(s[i]) \/ s[i] = 34 \/ s[i] = 10) /\ ~HasRun3(s, 34)
               THEN {Q3 \o <<10>> \o s \o Q3} ELSE {}
-      mll == IF MlLiteralOk(s) THEN {A3 \o <<10>> \o s \o A3} \cup (IF s = <<>> \/ s[1] # 10 THEN {A3 \o s \o A3} ELSE {}) ELSE {}
+      mll == IF MlLiteralOk(s)
+             THEN {A3 \o <<10>> \o s \o A3,
+                   A3 \o <<13, 10>> \o MapChars(s, LAMBDA c : IF c = 10 THEN <<13, 10>> ELSE <<c>>) \o A3}
+                  \cup (IF s = <<>> \/ s[1] # 10 THEN {A3 \o s \o A3} ELSE {})
+             ELSE {}
   IN basic \cup lit \cup mlb \cup rawq \cup mll
 
 \* every spelling of s as a key
